@@ -845,7 +845,11 @@ class AdapterLookupBase:
             if not extendors:
                 continue
 
-            components = byorder[order]
+            try:
+                components = byorder[order]
+            except IndexError:
+                # Concurrently pruned by an unregistration.
+                continue
             result = _lookup(components, required, extendors, name, 0,
                              order)
             if result is not None:
@@ -878,7 +882,11 @@ class AdapterLookupBase:
             extendors = registry._v_lookup._extendors.get(provided)
             if not extendors:
                 continue
-            components = byorder[order]
+            try:
+                components = byorder[order]
+            except IndexError:
+                # Concurrently pruned by an unregistration.
+                continue
             _lookupAll(components, required, extendors, result, 0, order)
 
         return tuple(result.items())
@@ -903,7 +911,12 @@ class AdapterLookupBase:
                 if extendors is None:
                     continue
 
-            _subscriptions(byorder[order], required, extendors, '',
+            try:
+                components = byorder[order]
+            except IndexError:
+                # Concurrently pruned by an unsubscription.
+                continue
+            _subscriptions(components, required, extendors, '',
                            result, 0, order)
 
         return result
